@@ -130,6 +130,9 @@ func genPcie(r *hx.Rand) Input {
 	}
 	if r.Bool() {
 		in.Version, in.Width = r.Range(1, 5), []int{1, 4, 8, 16}[r.Intn(4)]
+		if in.Version == 1 && in.Width == 1 {
+			in.Width = 4 // 0.27 bytes/cycle rounds to a flit size of 0, which the connector rejects at configuration time
+		}
 	}
 	in.Lat = []int{0, 1, 3, 20}[r.Intn(4)]
 	flit := 32
@@ -156,6 +159,9 @@ func genNvlink(r *hx.Rand) Input {
 	}
 	if r.Bool() {
 		in.Version, in.Width = r.Range(1, 5), []int{1, 4, 8, 16}[r.Intn(4)]
+		if in.Version == 1 && in.Width == 1 {
+			in.Width = 4 // 0.27 bytes/cycle rounds to a flit size of 0, which the connector rejects at configuration time
+		}
 	}
 	in.Lat = []int{0, 1, 3, 20}[r.Intn(4)]
 	traffic(r, &in, 32, r.Range(4, 20))
